@@ -37,13 +37,13 @@ theorem C17_chunk_independent (env : Env) (cfg : Config) (c₁ c₂ : Nat) (h₁
   readAll_chunk_independent env cfg c₁ c₂ h₁ h₂ data
 
 /-- tie: the block size found in the working tree satisfies the hypothesis -/
-theorem C17_tie_chunk : 0 < Generated.config.chunk := by decide
+theorem C17_tie_chunk : Generated.chunkKnown = true ∧ 0 < Generated.config.chunk := by decide
 
 /-- hence the reader as configured in the repository equals the reader with any
 other positive block size -/
 theorem C17_configured (env : Env) (cfg : Config) (c : Nat) (h : 0 < c) (data : Bytes) :
     readAll env cfg Generated.config.chunk data = readAll env cfg c data :=
-  C17_chunk_independent env cfg _ _ C17_tie_chunk h data
+  C17_chunk_independent env cfg _ _ C17_tie_chunk.2 h data
 
 /-- a test (not the claim): a delimiter exactly at a block boundary -/
 example : readUntil 4 10 [1, 2, 3, 10, 5, 6] = ([1, 2, 3, 10], false, [5, 6]) := by decide
